@@ -82,6 +82,10 @@ def build(cfg):
                 p["period"], p["b"], binomial_storage=storage(p["storage"]),
                 binomial_trajectory=p["traj"])
         kw = {k: fl(p[k]) for k in ("uf", "ub", "wd", "rd") if k in p}
+        if kw == {"uf": 1.0, "ub": 1.0, "wd": 2.0, "rd": 2.0}:
+            # the documented default cost vector: rely on the constructor's
+            # own defaults, as most callers do
+            kw = {}
         if c == "Revolve":
             return cs.Revolve(N, p["s"], **kw)
         if c == "DiskRevolve":
